@@ -21,7 +21,7 @@ type T struct {
 }
 
 func (t T) Go() time.Time { return time.Unix(t.Sec, t.Nsec) }
-func (t T) Coq() string  { return coqw.App("unixT", coqw.Z(t.Sec), coqw.Z(t.Nsec)) }
+func (t T) Coq() string   { return coqw.App("unixT", coqw.Z(t.Sec), coqw.Z(t.Nsec)) }
 
 type FlyioAuth struct {
 	User uint64
@@ -32,12 +32,12 @@ type FlyioAuth struct {
 type Acc struct {
 	Kind string // AFlyio | ADischarge | ABare | AActionOnly
 	// AFlyio
-	Action                                                      uint16
-	Org, App                                                    *uint64
-	AppFeature, Feature, Volume, Machine, MachineFeature        *string
-	Mutation, SrcMachine, SrcApp, SrcOrg, Cluster, Storage      *string
-	Command                                                     *[]string
-	Now                                                         T
+	Action                                                 uint16
+	Org, App                                               *uint64
+	AppFeature, Feature, Volume, Machine, MachineFeature   *string
+	Mutation, SrcMachine, SrcApp, SrcOrg, Cluster, Storage *string
+	Command                                                *[]string
+	Now                                                    T
 	// ADischarge
 	Flyio   []FlyioAuth
 	Google  []string
